@@ -18,6 +18,7 @@
       seek <offset> <whence 0|1|2>          -> ret=<n> err=0 | ret=-1 err=E
 -/
 import SfModel.AlacFile
+import SfModel.AlacTyped
 import SfModel.DwvwFile
 import Driver.Util
 open Sf Sf.Alac
@@ -28,10 +29,10 @@ abbrev Frame := List Int
 
 /-- `alac_write_s/i/f/d` conversions: the same kernels as DWVW (arith_shift_left 16, identity, psf_f2i_array, psf_d2i_array);
     alac_write_d passes psf->norm_float to psf_d2i_array -/
-def toCodec (cv : Conv) (ty : Ty) (v : Int) : Int := Sf.Dwvw.toCodec { cv with normD := cv.normF } ty v
-def toCaller (cv : Conv) (ty : Ty) (v : Int) : Int := Sf.Dwvw.toCaller cv ty v
+def toCodec (cv : Conv) (ty : Ty) (v : Int) : Int := Sf.AlacTyped.toCodec cv ty v        -- (the definitions the theorems of SfProps/C07AlacTyped.lean are about)
+def toCaller (cv : Conv) (ty : Ty) (v : Int) : Int := Sf.AlacTyped.toCaller cv ty v
 
-def framesOf (ch : Nat) (xs : List Int) : List Frame := if ch = 0 then [] else groups ch xs
+def framesOf (ch : Nat) (xs : List Int) : List Frame := Sf.AlacTyped.framesOf ch xs
 
 /-- encoder oracle: the packets of the reference run in order -/
 def encOracle (pk : List (List Byte)) : Codec (List (List Byte) × List (List Frame)) Frame :=
@@ -78,8 +79,7 @@ def runLine (ds : DS) (line : String) : DS × Option String :=
     | some ty =>
       let n := nS.toNat!
       let cd := encOracle []
-      let vs := ((parseItems ty hex).take (if mode == "f" then n * ds.cfg.ch else n)).map (toCodec ds.conv ty)
-      let w := writeCall cd ds.wst (framesOf ds.cfg.ch vs)
+      let w := Sf.AlacTyped.writeTyped ds.conv ds.cfg.ch cd ds.wst ty ((parseItems ty hex).take (if mode == "f" then n * ds.cfg.ch else n))
       ({ ds with w := some w }, some s!"ret={n} err=0")
   | ["w", _, _, _] => (ds, some "ret=0 err=0")
   | ["close"] =>
